@@ -435,6 +435,29 @@ pub fn gen_c16(rng: &mut Rng, thorough: bool) -> Vec<Tagged> {
             }
         }
     }
+    // every entry point on skip networks (not only forward): chained connections (the source of one is the
+    // target of another), one source at index >= 1 feeding several targets, a self connection feeding on,
+    // every accumulation; plus direct writes of the public map
+    for (k, acc) in ALL_ACCS.iter().enumerate() {
+        let layouts: Vec<Vec<(usize, usize)>> = vec![
+            vec![(0, 1), (1, 2), (2, 3)],
+            vec![(1, 2), (1, 3)],
+            vec![(1, 1), (1, 3)],
+            vec![(0, 1), (0, 2), (2, 3)],
+            vec![(2, 3), (2, 4), (2, 2)],
+        ];
+        for (li, conns) in layouts.into_iter().enumerate() {
+            let mut spec = dense_chain(rng, 2 + (k + li) % 2, 5, 1);
+            spec.skipacc = *acc;
+            spec.connect = conns;
+            let n = 2 + (k + li) % 2;
+            entry_point_cases(rng, &spec, Sh::Flat(n), &format!("skip-{:?}-layout{}", acc, li), &mut out);
+        }
+    }
+    for r in 0..(if thorough { 20 } else { 6 }) {
+        let (spec, input, _) = combo_net(rng, r, 1);
+        entry_point_cases(rng, &spec, input, "skip-block-loop-combination", &mut out);
+    }
     out
 }
 
@@ -619,6 +642,30 @@ pub fn gen_c17(rng: &mut Rng, thorough: bool) -> Vec<Tagged> {
             out.push((format!("loop-{:?}-k{}-overflowing-body", acc, k), Case::Net(spec, NetCmd::Forward(t1(vec![1.0; n])))));
         }
     }
+    // every entry point on loop networks (not only forward): predict, predict_batch, and direct writes of the
+    // public map `loopbacks` between predictions (emptied, other iteration count and input-skip flag, restored,
+    // filled in on a network built without loops); one loop, two loops, loops next to skips and blocks
+    for (ai, acc) in ALL_ACCS.iter().enumerate() {
+        for variant in 0..3 {
+            let n = 2 + (ai + variant) % 2;
+            let mut spec = dense_chain(rng, n, 4, 1);
+            spec.loopacc = *acc;
+            spec.loops = match variant {
+                0 => vec![(2, 1, 1 + ai % 3, ai % 2 == 0)],
+                1 => vec![(3, 2, 2, false), (1, 0, 1, true)],
+                _ => vec![(0, 0, 3, ai % 2 == 1)],
+            };
+            if variant == 2 {
+                spec.connect = vec![(1, 3)];
+                spec.skipacc = ALL_ACCS[(ai + 2) % 5];
+            }
+            entry_point_cases(rng, &spec, Sh::Flat(n), &format!("loop-{:?}-variant{}", acc, variant), &mut out);
+        }
+    }
+    for r in 0..(if thorough { 20 } else { 6 }) {
+        let (spec, input, _) = combo_net(rng, r, 1);
+        entry_point_cases(rng, &spec, input, "loop-block-skip-combination", &mut out);
+    }
     out
 }
 
@@ -637,6 +684,67 @@ pub fn train_net(rng: &mut Rng, o: &GenOpts, spatial: bool, softmax: bool) -> Op
         }
     }
     Some((spec, input, *shapes.last().unwrap()))
+}
+
+/// a dense chain of `depth` layers of equal width n (tanh / sigmoid / linear), with weights
+pub fn dense_chain(rng: &mut Rng, n: usize, depth: usize, wkind: u8) -> NetSpec {
+    let mut spec = NetSpec::new(Sh::Flat(n).to_shape());
+    let mut ws = vec![];
+    for _ in 0..depth {
+        let d = Simple::Dense { out: n, act: *rng.pick(&[Act::Tanh, Act::Sigmoid, Act::Linear]), bias: rng.coin(), dropout: None };
+        ws.push(LW::One(rand_w(rng, &d, Sh::Flat(n), wkind)));
+        spec.layers.push(LayerSpec::One(d));
+    }
+    spec.weights = Some(ws);
+    spec
+}
+
+/// the observable entry points other than `forward` on one structured network: predict, predict_batch, and a
+/// script that writes the public maps `connect` / `loopbacks` directly between predictions (emptied, changed,
+/// restored - as the crate's own examples do to switch connections off and on)
+pub fn entry_point_cases(rng: &mut Rng, spec: &NetSpec, input: Sh, tag: &str, out: &mut Vec<Tagged>) {
+    let x = rand_input(rng, input, 0);
+    out.push((format!("{}-predict", tag), Case::Net(spec.clone(), NetCmd::Predict(x.clone()))));
+    let xs: Vec<Tensor> = (0..3).map(|_| rand_input(rng, input, 0)).collect();
+    out.push((format!("{}-predict-batch", tag), Case::Net(spec.clone(), NetCmd::PredictBatch(xs))));
+    let conn_map: Vec<(usize, usize)> = spec.connect.iter().map(|&(from, into)| (into, from)).collect();
+    let mut ops = vec![NetCmd::Predict(x.clone())];
+    if !spec.connect.is_empty() {
+        ops.push(NetCmd::SetConnect(vec![]));
+        ops.push(NetCmd::Predict(x.clone()));
+        // only the last connection
+        ops.push(NetCmd::SetConnect(conn_map[conn_map.len() - 1..].to_vec()));
+        ops.push(NetCmd::Predict(x.clone()));
+        ops.push(NetCmd::SetConnect(conn_map.clone()));
+        ops.push(NetCmd::Predict(x.clone()));
+    }
+    if !spec.loops.is_empty() {
+        ops.push(NetCmd::SetLoops(vec![]));
+        ops.push(NetCmd::Predict(x.clone()));
+        let mut changed = spec.loops.clone();
+        changed[0].2 += 1 + rng.below(2);
+        changed[0].3 = !changed[0].3;
+        ops.push(NetCmd::SetLoops(changed));
+        ops.push(NetCmd::Predict(x.clone()));
+        ops.push(NetCmd::SetLoops(spec.loops.clone()));
+        ops.push(NetCmd::Predict(x.clone()));
+    }
+    out.push((format!("{}-direct-field-writes", tag), Case::Net(spec.clone(), NetCmd::Script(ops))));
+    // built WITHOUT the connections, which are then inserted into the public maps directly
+    if !spec.loops.is_empty() || !spec.connect.is_empty() {
+        let mut bare = spec.clone();
+        bare.loops = vec![];
+        bare.connect = vec![];
+        let mut ops = vec![NetCmd::Predict(x.clone())];
+        if !spec.connect.is_empty() {
+            ops.push(NetCmd::SetConnect(conn_map));
+        }
+        if !spec.loops.is_empty() {
+            ops.push(NetCmd::SetLoops(spec.loops.clone()));
+        }
+        ops.push(NetCmd::Predict(x));
+        out.push((format!("{}-maps-filled-directly", tag), Case::Net(bare, NetCmd::Script(ops))));
+    }
 }
 
 /// a flat network that combines the three structural features: dense, feedback block, dense, dense, dense
@@ -785,6 +893,21 @@ pub fn gen_c04(rng: &mut Rng, thorough: bool) -> Vec<Tagged> {
         spec.obj = Obj::MSE;
         let data = rand_data(rng, 3, input, outsh, Obj::MSE);
         out.push(("learn-block-skip-loop-combination".into(), Case::Net(spec, NetCmd::Learn { data, val: None, batch: 2, epochs: 2 })));
+    }
+    // B > N by any amount: "full batch" requested as a batch size far beyond the data set (N + 1, 2^20, 10^13,
+    // isize::MAX / 4 + 1, usize::MAX): the N samples are the single partial group of every epoch
+    for (k, &batch) in [usize::MAX, (isize::MAX as usize) / 4 + 1, 10_000_000_000_000usize, 1 << 20, 1 << 33, usize::MAX - 1].iter().enumerate() {
+        if let Some((mut spec, input, outsh)) = train_net(rng, &o, k % 3 == 2, false) {
+            spec.opt = rand_opt(rng, k % 5);
+            spec.obj = Obj::MSE;
+            let n = 1 + k % 4;
+            let data = rand_data(rng, n, input, outsh, spec.obj);
+            let val = if k % 2 == 1 { Some((rand_data(rng, 2, input, outsh, spec.obj), 2)) } else { None };
+            out.push((format!("learn-N{}-batch-far-beyond-data-E3", n), Case::Net(spec.clone(), NetCmd::Learn { data: data.clone(), val, batch, epochs: 3 })));
+            if k < 2 {
+                out.push((format!("learn-N{}-batch-far-beyond-data-twice", n), Case::Net(spec, NetCmd::LearnTwice { data, batch, epochs1: 2, epochs2: 2 })));
+            }
+        }
     }
     // long runs (7 .. 70 epochs) in which the reported loss stays constant for many epochs although the
     // step is no no-op (dead ReLU + weight decay, momentum carrying on, Adam moments, a loss saturated in
@@ -1376,6 +1499,15 @@ pub fn gen_c05(rng: &mut Rng, thorough: bool) -> Vec<Tagged> {
         out.push(("par-learn-conv-chain-equal-padded-size".into(), Case::Net(sp.clone(), NetCmd::Learn { data, val: None, batch: 3, epochs: 2 })));
         out.push(("par-predict-batch-conv-chain-equal-padded-size".into(), Case::Net(sp, NetCmd::PredictBatch(xs))));
     }
+    // samples with a NaN / infinite loss in the middle of an evaluation set of more than one parallel chunk
+    for (k, (n, bad)) in [(70usize, vec![(33usize, f32::NAN)]), (150, vec![(70, f32::NAN), (20, f32::INFINITY)]), (200, vec![(199, f32::NAN)]), (130, vec![(0, f32::NAN)]), (65, vec![(64, f32::NEG_INFINITY)])].into_iter().enumerate() {
+        let (spec, data) = nan_in_the_middle(n, &bad);
+        out.push(("par-validate-nan-loss-in-the-middle".into(), Case::Net(spec.clone(), NetCmd::Validate { data: data.clone(), tol: 0.1, pre_training: false })));
+        if k < 2 {
+            let train: Vec<(Tensor, Tensor)> = data.iter().take(5).cloned().collect();
+            out.push(("par-learn-validation-nan-loss-in-the-middle".into(), Case::Net(spec, NetCmd::Learn { data: train, val: Some((data, 100)), batch: 2, epochs: 2 })));
+        }
+    }
     // shared-source skip connections: several skip gradients are summed in the backward pass
     for _ in 0..(if thorough { 12 } else { 3 }) {
         let n = rng.range(2, 4);
@@ -1394,6 +1526,29 @@ pub fn gen_c05(rng: &mut Rng, thorough: bool) -> Vec<Tagged> {
         out.push(("par-learn-shared-source-skips".into(), Case::Net(sp, NetCmd::Learn { data, val: None, batch: 3, epochs: 2 })));
     }
     out
+}
+
+/// an evaluation set whose per-sample results are far from uniform: the 2 -> 2 identity network, every third
+/// target equal to the prediction (accuracy 1), the others off by one (accuracy 0), and in the middle of the
+/// set samples whose loss is NaN or infinite (NaN / infinite inputs): mean loss and mean accuracy are taken
+/// over ALL samples in input order whatever a sample's loss is
+pub fn nan_in_the_middle(n: usize, bad: &[(usize, f32)]) -> (NetSpec, Vec<(Tensor, Tensor)>) {
+    let mut spec = NetSpec::new(Sh::Flat(2).to_shape());
+    spec.layers.push(LayerSpec::One(Simple::Dense { out: 2, act: Act::Linear, bias: false, dropout: None }));
+    spec.weights = Some(vec![LW::One(W::Dense(t2(2, 2, &[1.0, 0.0, 0.0, 1.0]), None))]);
+    spec.opt = Opt::SGD { lr: 0.01, decay: None };
+    spec.obj = Obj::MSE;
+    let mut data: Vec<(Tensor, Tensor)> = (0..n).map(|i| {
+        let x = vec![0.25 * (i % 7) as f32 - 0.5, 0.125 * (i % 5) as f32];
+        let t = if i % 3 == 0 { x.clone() } else { vec![x[0] + 1.0, x[1] - 1.0] };
+        (t1(x), t1(t))
+    }).collect();
+    for &(i, v) in bad {
+        if i < n {
+            data[i].0 = t1(vec![v, 0.5]);
+        }
+    }
+    (spec, data)
 }
 
 /// runs one job in pools of every size, repeated, with and without schedule perturbation: all results equal
@@ -1502,6 +1657,19 @@ pub fn fals_c05(rng: &mut Rng, thorough: bool) -> crate::fals::Fals {
         let big_pools: Vec<usize> = if thorough { vec![1, 2, 4, 8, 16] } else { vec![1, 4, 8] };
         let cmd = NetCmd::Learn { data, val: None, batch: 64, epochs: 2 };
         across_pools(&mut f, rng, &big_pools, 2, &spec, &cmd, "schedule/learn/large-batch-x-parameters", "learn", "256->256->8 dense network, batch 64");
+    }
+    // samples with a NaN / infinite loss in the middle of the evaluation set, non-uniform accuracies: an
+    // unordered short-circuit ("stop at the first diverged sample") would make the accuracy depend on the schedule
+    for (n, bad) in [(200usize, vec![(100usize, f32::NAN)]), (333, vec![(70, f32::NAN), (250, f32::INFINITY)]), (130, vec![(129, f32::NAN)]), (700, vec![(350, f32::NAN)])] {
+        let (spec, data) = nan_in_the_middle(n, &bad);
+        let train: Vec<(Tensor, Tensor)> = data.iter().take(6).cloned().collect();
+        let cmds = vec![
+            ("validate", NetCmd::Validate { data: data.clone(), tol: 0.1, pre_training: false }),
+            ("learn", NetCmd::Learn { data: train, val: Some((data.clone(), 100)), batch: 3, epochs: 2 }),
+        ];
+        for (name, cmd) in cmds {
+            across_pools(&mut f, rng, &pools, reps.max(4), &spec, &cmd, &format!("schedule/{}/nan-loss-in-the-middle", name), name, &format!("2->2 identity network, {} evaluation samples, NaN / infinite inputs at {:?}", n, bad.iter().map(|b| b.0).collect::<Vec<_>>()));
+        }
     }
     // arithmetic in the subnormal range (weights 1e-20 and 1e30, inputs k*1e-20, rate 1e-25): the floating-point
     // environment of the thread that happens to run a sample or the update must not matter
